@@ -138,6 +138,23 @@ func (cache *StorageCache) SetState(key common.Hash, value []byte) error {
 	return nil
 }
 
+// IsDirty tells whether a write of the key is waiting to be flushed into the trie
+func (cache *StorageCache) IsDirty(key common.Hash) bool {
+	_, ok := cache.dirty[key]
+	return ok
+}
+
+// RevertState takes back the write of a key which had no pending write before: the old value is visible again and nothing stays queued for
+// the trie. A queued no-op write is not harmless: Update would load the trie and turn an empty root common.Hash{} into the empty trie's hash
+func (cache *StorageCache) RevertState(key common.Hash, oldValue []byte) {
+	delete(cache.dirty, key)
+	if len(oldValue) == 0 {
+		delete(cache.cached, key)
+	} else {
+		cache.cached[key] = oldValue
+	}
+}
+
 func (cache *StorageCache) DelState(key common.Hash) error {
 	delete(cache.cached, key)
 	delete(cache.dirty, key)
